@@ -786,9 +786,16 @@ def r7(ctx: Ctx) -> None:
         right_norm = False
         if isinstance(right, ast.Name):
             # follow the definition of the set
+            norms = []
             for n in g.nodes:
                 if n.kind == "stmt" and isinstance(n.ast, ast.Assign) and any(isinstance(x, ast.Name) and x.id == right.id for x in n.ast.targets):
-                    right_norm = "lstrip" in norm_text(n.ast.value)
+                    v_ = n.ast.value
+                    empty = (isinstance(v_, ast.Call) and isinstance(v_.func, ast.Name) and v_.func.id in ("set", "frozenset", "list", "tuple", "dict")
+                             and not v_.args and not v_.keywords) or (isinstance(v_, (ast.Set, ast.List, ast.Tuple, ast.Dict)) and not getattr(v_, "elts", getattr(v_, "keys", [])))
+                    if empty or (isinstance(v_, ast.Constant) and v_.value is None):
+                        continue  # an empty set / the not-yet-built placeholder holds nothing un-normalised
+                    norms.append("lstrip" in norm_text(v_))
+            right_norm = bool(norms) and all(norms)
         if "startswith" in norm_text(t) or "endswith" in norm_text(t):
             problems.append(f"`{norm_text(t)}` is a prefix/suffix test")
         if left_norm != right_norm:
